@@ -1,0 +1,15 @@
+//go:build verif
+
+package wastepb
+
+import "github.com/smart-core-os/sc-api/go/traits"
+
+// Compiled only with the `verif` build tag; nothing here changes behaviour without the tag.
+
+// VerifSetRecords replaces the stored waste records (NewModel always pre-generates 100 records, so
+// without this the verification harness in /verif could not page through small or empty collections).
+func VerifSetRecords(m *Model, records []*traits.WasteRecord) {
+	m.mu.Lock()
+	defer m.mu.Unlock()
+	m.allWasteRecords = records
+}
